@@ -114,6 +114,17 @@ def s6(rng):
     return "IFUKinCov", cfg, h, True
 
 
+@scen("a_ani/GAUSSIAN_TAN_RAD")
+def s30(rng):
+    # tangential-to-radial parameterisation: the draw is 1 - N(a_ani, sigma)^2; its scatter alone makes the lens non-sharp
+    lt = rng.choice(["IFUKinCov", "DdtGaussKin", "DdtDdGaussian"])
+    cfg, h = base_cfg(rng, lt)
+    cfg.update(anisotropy_model=rng.choice(["const", "OM"]), anisotropy_sampling=True, anisotropy_distribution="GAUSSIAN_TAN_RAD")
+    cfg["_grid"] = (["a_ani"], [np.linspace(0.05, 1.2, 6)])
+    h["kwargs_kin"].update(a_ani=rng.choice([0.8, 0.7]), a_ani_sigma=rng.choice([0.05, 0.1]))
+    return lt, cfg, h, True
+
+
 @scen("a_ani/sampling off")
 def s7(rng):
     cfg, h = base_cfg(rng, "DdtGaussian")
